@@ -26,7 +26,7 @@ def sh(cmd, cwd=None, timeout=3600):
     return p.returncode, p.stdout
 
 
-def confirm(wt, sid, prop, features=""):
+def confirm(wt, sid, prop, features="", pkg="vaporetto", extra_cmd=None):
     out = os.path.join(wt, "OUT")
     meta = json.load(open(os.path.join(out, "meta.json")))
     demo = [f for f in os.listdir(out) if f.endswith(".rs")]
@@ -34,13 +34,15 @@ def confirm(wt, sid, prop, features=""):
     sh("git checkout -- . && git clean -fdq -e OUT -e target", cwd=wt)
     rc, o = sh("git apply --check OUT/patch.diff", cwd=wt)
     assert rc == 0, "patch does not apply: " + o
-    tdir = os.path.join(wt, "vaporetto", "tests")
+    tdir = os.path.join(wt, pkg, "tests")
     os.makedirs(tdir, exist_ok=True)
     for d in demo:
         shutil.copy(os.path.join(out, d), os.path.join(tdir, d))
     name = demo[0][:-3]
     feat = ("--features " + features) if features else ""
-    cmd = "CARGO_TARGET_DIR=%s/target cargo test -p vaporetto %s --test %s --offline" % (wt, feat, name)
+    cmd = "CARGO_TARGET_DIR=%s/target cargo test -p %s %s --test %s --offline" % (wt, pkg, feat, name)
+    if extra_cmd:
+        cmd = extra_cmd.replace("<wt>", wt)
     rc0, o0 = sh(cmd, cwd=wt)
     sh("git apply OUT/patch.diff", cwd=wt)
     rc1, o1 = sh(cmd, cwd=wt)
@@ -67,7 +69,7 @@ def confirm(wt, sid, prop, features=""):
         "base_commit": subprocess.check_output(["git", "-C", wt, "rev-parse", "HEAD"], text=True).strip(),
         "confirmed_by_me": {
             "worktree": "scratch git worktree of /repo (removed afterwards)",
-            "demo_cmd": "copy the demo to vaporetto/tests/ ; " + cmd.replace(wt, "<worktree>"),
+            "demo_cmd": "copy the demo to %s/tests/ ; " % pkg + cmd.replace(wt, "<worktree>"),
             "demo_without_change": "passes", "demo_with_change": "fails: " + " | ".join(fails)[:600],
             "suite_with_change": "cargo test --workspace --no-fail-fast --offline: passes",
             "date": time.strftime("%Y-%m-%d"),
@@ -111,9 +113,15 @@ if __name__ == "__main__":
     a = sys.argv[1:]
     if a and a[0] == "confirm":
         feats = ""
+        pkg = "vaporetto"
+        extra = None
         if "--features" in a:
             feats = a[a.index("--features") + 1]
-        ok = confirm(a[1], a[2], a[3], feats)
+        if "--pkg" in a:
+            pkg = a[a.index("--pkg") + 1]
+        if "--cmd" in a:
+            extra = a[a.index("--cmd") + 1]
+        ok = confirm(a[1], a[2], a[3], feats, pkg, extra)
         sys.exit(0 if ok else 1)
     elif a and a[0] == "detect":
         tier = "quick"
